@@ -1194,9 +1194,10 @@ package fpgo
 //@   ghost g (Array Int Int)
 //@   ghost pos (Array Int Int)
 //@   ghost inall (Array Val Bool)
+//@   ghost hit (Array Int Bool)
 //@   ghostinit inall = lamvo(x, forall(k9, 1, len(inputList), CONTAINS(inputList[k9], x)))
 //@   requires inputList == nil || len(inputList) > 0
-//@   ensures def: forallv(x, reveal(inall, x) && inall[x] == forall(k9, 1, len(inputList), CONTAINS(inputList[k9], x)))
+//@   ensures def: forallv(x, reveal(inall, x) ==> inall[x] == forall(k9, 1, len(inputList), CONTAINS(inputList[k9], x)))
 //@   ensures nil: inputList == nil ==> len(r0) == 0
 //@   ensures sub: inputList != nil ==> forall(j, 0, len(r0), 0 <= g[j] && g[j] < len(inputList[0]) && r0[j] == inputList[0][g[j]] && inall[inputList[0][g[j]]] && IX_FIRST(inputList, g[j]))
 //@   ensures mono: forall(j, 0, len(r0), forall(l, 0, j, g[l] < g[j]))
@@ -1219,14 +1220,19 @@ package fpgo
 //@   invariant mono: forall(j, 0, len(newList), forall(l, 0, j, g[l] < g[j]))
 //@   invariant all: forall(k, 0, i, inall[inputList[0][k]] && IX_FIRST(inputList, k) ==> 0 <= pos[k] && pos[k] < len(newList) && g[pos[k]] == k)
 //@ func Intersection loop 2
+//@   ghostbefore hit = lami(k, oldheap(CONTAINS(inputList[k], inputList[0][i])))
 //@   invariant range: 1 <= j && j <= inputLen && 0 <= matchCount && matchCount <= j-1
-//@   invariant count: (matchCount == j-1) == forall(k, 1, j, CONTAINS(inputList[k], inputList[0][i]))
-//@   after summary: reveal(inall, inputList[0][i]) && (matchCount == inputLen-1) == inall[inputList[0][i]]
+//@   invariant count: (matchCount == j-1) == forall(k, 1, j, hit[k])
+//@   after counted: (matchCount == inputLen-1) == forall(k, 1, len(inputList), hit[k])
+//@   after bridged: forall(k, 1, len(inputList), hit[k]) == oldheap(forall(k9, 1, len(inputList), CONTAINS(inputList[k9], inputList[0][i])))
+//@   after unfolded: oldheap(reveal(inall, inputList[0][i]) ==> inall[inputList[0][i]] == (forall(k9, 1, len(inputList), CONTAINS(inputList[k9], inputList[0][i]))))
+//@   after summary: oldheap((matchCount == inputLen-1) == inall[inputList[0][i]])
 //@ func Intersection loop 3
 //@   invariant range: 0 <= matchCount && matchCount <= j-1
-//@   invariant count: (matchCount == j-1) == forall(k, 1, j, CONTAINS(inputList[k], inputList[0][i]))
-//@   invariant nomatch: forall(l, 0, _i, inputList[j][l] != inputList[0][i])
-//@   after summary: 0 <= matchCount && matchCount <= j && (matchCount == j) == forall(k, 1, j+1, CONTAINS(inputList[k], inputList[0][i]))
+//@   invariant count: (matchCount == j-1) == forall(k, 1, j, hit[k])
+//@   invariant nomatch: oldheap(forall(l, 0, _i, inputList[j][l] != inputList[0][i]))
+//@   after this-list: hit[j] == oldheap(CONTAINS(inputList[j], inputList[0][i]))
+//@   after summary: 0 <= matchCount && matchCount <= j && (matchCount == j) == forall(k, 1, j+1, hit[k])
 //@ twin Intersection IntersectionForInterface
 
 //@ func Difference
@@ -1234,11 +1240,12 @@ package fpgo
 //@   ghost g (Array Int Int)
 //@   ghost pos (Array Int Int)
 //@   ghost innone (Array Val Bool)
+//@   ghost hit (Array Int Bool)
 //@   ghostinit innone = lamvo(x, forall(k9, 1, len(arrList), !CONTAINS(arrList[k9], x)))
 //@   requires arrList == nil || len(arrList) > 0
 //@   ghostset g = ite(len(arrList) == 1, Distinct_g, g)
 //@   ghostset pos = ite(len(arrList) == 1, Distinct_pos, pos)
-//@   ensures def: forallv(x, reveal(innone, x) && innone[x] == forall(k9, 1, len(arrList), !CONTAINS(arrList[k9], x)))
+//@   ensures def: forallv(x, reveal(innone, x) ==> innone[x] == forall(k9, 1, len(arrList), !CONTAINS(arrList[k9], x)))
 //@   ensures nil: arrList == nil ==> len(r0) == 0
 //@   ensures sub: arrList != nil ==> forall(j, 0, len(r0), 0 <= g[j] && g[j] < len(arrList[0]) && r0[j] == arrList[0][g[j]] && innone[arrList[0][g[j]]] && IX_FIRST(arrList, g[j]))
 //@   ensures mono: forall(j, 0, len(r0), forall(l, 0, j, g[l] < g[j]))
@@ -1253,11 +1260,16 @@ package fpgo
 //@   invariant mono: forall(j, 0, len(newList), forall(l, 0, j, g[l] < g[j]))
 //@   invariant all: forall(k, 0, i, innone[arrList[0][k]] && IX_FIRST(arrList, k) ==> 0 <= pos[k] && pos[k] < len(newList) && g[pos[k]] == k)
 //@ func Difference loop 1
+//@   ghostbefore hit = lami(k, oldheap(CONTAINS(arrList[k], arrList[0][i])))
 //@   invariant range: 1 <= j && j <= len(arrList) && 0 <= matchCount
-//@   invariant count: (matchCount == 0) == forall(k, 1, j, !CONTAINS(arrList[k], arrList[0][i]))
-//@   after summary: reveal(innone, arrList[0][i]) && (matchCount == 0) == innone[arrList[0][i]]
+//@   invariant count: (matchCount == 0) == forall(k, 1, j, !hit[k])
+//@   after counted: (matchCount == 0) == forall(k, 1, len(arrList), !hit[k])
+//@   after bridged: forall(k, 1, len(arrList), !hit[k]) == oldheap(forall(k9, 1, len(arrList), !CONTAINS(arrList[k9], arrList[0][i])))
+//@   after unfolded: oldheap(reveal(innone, arrList[0][i]) ==> innone[arrList[0][i]] == (forall(k9, 1, len(arrList), !CONTAINS(arrList[k9], arrList[0][i]))))
+//@   after summary: oldheap((matchCount == 0) == innone[arrList[0][i]])
 //@ func Difference loop 2
 //@   invariant range: 0 <= matchCount
-//@   invariant count: (matchCount == 0) == forall(k, 1, j, !CONTAINS(arrList[k], arrList[0][i]))
-//@   invariant nomatch: forall(l, 0, _i, arrList[j][l] != arrList[0][i])
-//@   after summary: 0 <= matchCount && (matchCount == 0) == forall(k, 1, j+1, !CONTAINS(arrList[k], arrList[0][i]))
+//@   invariant count: (matchCount == 0) == forall(k, 1, j, !hit[k])
+//@   invariant nomatch: oldheap(forall(l, 0, _i, arrList[j][l] != arrList[0][i]))
+//@   after this-list: hit[j] == oldheap(CONTAINS(arrList[j], arrList[0][i]))
+//@   after summary: 0 <= matchCount && (matchCount == 0) == forall(k, 1, j+1, !hit[k])
